@@ -167,11 +167,11 @@ class RecordReducer(Reducer, ABC):
 
     @duration.setter
     def duration(self, value: float) -> None:
-        value = argtest.gt("duration", value, 0, float)
+        value = argtest.gte("duration", value, 0, float)
         if value != self.__duration:
             for rec in self.__records:
                 getattr(self, rec).duration = value
-            self.__step_time = value
+            self.__duration = value
 
     @property
     def inplace(self) -> bool:
